@@ -651,6 +651,11 @@ type coldef struct {
 	BlockData BlockData
 	Column    wpg.Column
 	Notify    bool
+
+	// for an indexed input: position of its value in Log.Topics
+	// (1 + the number of indexed inputs declared before it,
+	// selected or not)
+	topic int
 }
 
 // Implements the [shovel.Integration] interface
@@ -724,15 +729,22 @@ func (ig *Integration) setCols() {
 		}
 		return wpg.Column{}
 	}
-	for _, input := range ig.Event.Selected() {
-		c := getCol(input.Column)
-		ig.Columns = append(ig.Columns, c.Name)
-		ig.coldefs = append(ig.coldefs, coldef{
-			Input:  input,
-			Column: c,
-			Notify: slices.Contains(ig.Notification.Columns, c.Name),
-		})
-		ig.numSelected++
+	var nindexed int
+	for _, top := range ig.Event.Inputs {
+		if top.Indexed {
+			nindexed++
+		}
+		for _, input := range top.Selected() {
+			c := getCol(input.Column)
+			ig.Columns = append(ig.Columns, c.Name)
+			ig.coldefs = append(ig.coldefs, coldef{
+				Input:  input,
+				Column: c,
+				Notify: slices.Contains(ig.Notification.Columns, c.Name),
+				topic:  nindexed,
+			})
+			ig.numSelected++
+		}
 	}
 	for _, bd := range ig.Block {
 		c := getCol(bd.Column)
@@ -1026,18 +1038,17 @@ func (ig Integration) processLog(rows [][]any, lwc *logWithCtx, pgmut *sync.Mute
 			return nil, fmt.Errorf("scanning abi data: %w", err)
 		}
 		for i := 0; i < ig.resultCache.Len(); i++ {
-			ictr, actr := 1, 0
+			actr := 0
 			frs := filterResults{kind: ig.filterAGG}
 			row := make([]any, len(ig.coldefs))
 			for j, def := range ig.coldefs {
 				switch {
 				case def.Input.Indexed:
-					d := dbtype(def.Input.Type, lwc.l.Topics[ictr])
+					d := dbtype(def.Input.Type, lwc.l.Topics[def.topic])
 					if err := def.Input.Accept(lwc.ctx, pgmut, pg, d, &frs); err != nil {
 						return nil, fmt.Errorf("checking filter: %w", err)
 					}
 					row[j] = d
-					ictr++
 				case !def.BlockData.Empty():
 					var d any
 					switch {
@@ -1069,7 +1080,7 @@ func (ig Integration) processLog(rows [][]any, lwc *logWithCtx, pgmut *sync.Mute
 		for i, def := range ig.coldefs {
 			switch {
 			case def.Input.Indexed:
-				d := dbtype(def.Input.Type, lwc.l.Topics[1+i])
+				d := dbtype(def.Input.Type, lwc.l.Topics[def.topic])
 				if err := def.Input.Accept(lwc.ctx, pgmut, pg, d, &frs); err != nil {
 					return nil, fmt.Errorf("checking filter: %w", err)
 				}
